@@ -41,6 +41,9 @@ type entry struct {
 	eq func(a, b any) bool
 	// heavy: decoding costs milliseconds (parameter sets): fewer fault points in the quick tier
 	heavy bool
+	// refill: the constructor runs the real key generator (which sets seeds, Galois elements, shapes); the
+	// coefficient words are then replaced by gen.fill's (see there for why)
+	refill bool
 }
 
 // world: parameter sets and secret keys shared by all constructors (read-only after construction).
@@ -69,9 +72,11 @@ func (g *gen) u64() uint64 {
 	return x
 }
 
-// fill overwrites every []uint64 reachable from ptr with pseudo-random 60-bit words, every [32]byte seed
-// too. (What is serialized does not have to be a meaningful cryptographic object, it has to have the shape
-// of one and distinct words everywhere so that a misplaced or dropped word is visible.)
+// fill overwrites every []uint64 reachable from ptr with pseudo-random words in [2^59, 2^60). What is
+// serialized does not have to be a meaningful cryptographic object, it has to have the shape of one and
+// distinct words everywhere so that a misplaced or dropped word is visible. The magnitude is deliberate: when
+// a damaged header shifts the framing by whole words, a coefficient read as a length is >= 2^59 and make()
+// refuses it with a recoverable panic instead of attempting a multi-GiB allocation.
 func (g *gen) fill(ptr any) {
 	var walk func(v reflect.Value)
 	walk = func(v reflect.Value) {
@@ -88,7 +93,7 @@ func (g *gen) fill(ptr any) {
 		case reflect.Slice, reflect.Array:
 			if v.Type().Elem().Kind() == reflect.Uint64 {
 				for i := 0; i < v.Len(); i++ {
-					v.Index(i).SetUint(g.u64() >> 4)
+					v.Index(i).SetUint(g.u64()>>5 | 1<<59)
 				}
 				return
 			}
@@ -143,7 +148,11 @@ func build(seed uint64, e *entry, vi int) any {
 	v := e.vals[vi]
 	sampling.VerifSeed(engine.Hash(seed, "c08/value", e.name, v.label))
 	g := &gen{prng: uni.KeyedPRNG(seed, "c08/gen", e.name, v.label)}
-	return v.mk(w, g)
+	obj := v.mk(w, g)
+	if e.refill {
+		g.fill(obj)
+	}
+	return obj
 }
 
 // ---------------------------------------------------------------------------------------------
@@ -420,12 +429,12 @@ func catalogue() []*entry {
 			}),
 		}},
 		// ---- keys
-		{name: "rlwe.SecretKey", vals: []value{
+		{name: "rlwe.SecretKey", refill: true, vals: []value{
 			V("A", func(w *world, g *gen) any { return rlwe.NewKeyGenerator(w.pA).GenSecretKeyNew() }),
 			V("C-noP", func(w *world, g *gen) any { return rlwe.NewKeyGenerator(w.pC).GenSecretKeyNew() }),
 			V("B-N32", func(w *world, g *gen) any { return rlwe.NewKeyGenerator(w.pB).GenSecretKeyNew() }),
 		}},
-		{name: "rlwe.PublicKey", vals: []value{
+		{name: "rlwe.PublicKey", refill: true, vals: []value{
 			V("A", func(w *world, g *gen) any { return rlwe.NewKeyGenerator(w.pA).GenPublicKeyNew(w.skA) }),
 			V("C-noP", func(w *world, g *gen) any { return rlwe.NewKeyGenerator(w.pC).GenPublicKeyNew(w.skC) }),
 			V("B-N32", func(w *world, g *gen) any { return rlwe.NewKeyGenerator(w.pB).GenPublicKeyNew(w.skB) }),
@@ -441,7 +450,7 @@ func catalogue() []*entry {
 			V("A-deg1-base2^10", func(w *world, g *gen) any { c := rlwe.NewGadgetCiphertext(w.pA, 1, 1, 0, 10); g.fill(c); return c }),
 			V("C-noP", func(w *world, g *gen) any { c := rlwe.NewGadgetCiphertext(w.pC, 1, 1, -1, 0); g.fill(c); return c }),
 		}},
-		{name: "rlwe.EvaluationKey", vals: []value{
+		{name: "rlwe.EvaluationKey", refill: true, vals: []value{
 			V("A", func(w *world, g *gen) any { return rlwe.NewKeyGenerator(w.pA).GenEvaluationKeyNew(w.skA, w.skA2) }),
 			V("A-compressed", func(w *world, g *gen) any {
 				return rlwe.NewKeyGenerator(w.pA).GenEvaluationKeyNew(w.skA, w.skA2, evkParams(dflt, dflt, 0, true))
@@ -460,7 +469,7 @@ func catalogue() []*entry {
 				return rlwe.NewKeyGenerator(w.pC).GenEvaluationKeyNew(w.skC, w.skC, evkParams(dflt, dflt, 20, false))
 			}),
 		}},
-		{name: "rlwe.RelinearizationKey", vals: []value{
+		{name: "rlwe.RelinearizationKey", refill: true, vals: []value{
 			V("A", func(w *world, g *gen) any { return rlwe.NewKeyGenerator(w.pA).GenRelinearizationKeyNew(w.skA) }),
 			V("A-compressed", func(w *world, g *gen) any {
 				return rlwe.NewKeyGenerator(w.pA).GenRelinearizationKeyNew(w.skA, evkParams(dflt, dflt, 0, true))
@@ -469,7 +478,7 @@ func catalogue() []*entry {
 				return rlwe.NewKeyGenerator(w.pA).GenRelinearizationKeyNew(w.skA, evkParams(0, 0, 0, false))
 			}),
 		}},
-		{name: "rlwe.GaloisKey", vals: []value{
+		{name: "rlwe.GaloisKey", refill: true, vals: []value{
 			V("A-gal5", func(w *world, g *gen) any { return rlwe.NewKeyGenerator(w.pA).GenGaloisKeyNew(5, w.skA) }),
 			V("A-conjugate", func(w *world, g *gen) any {
 				return rlwe.NewKeyGenerator(w.pA).GenGaloisKeyNew(w.pA.GaloisElementOrderTwoOrthogonalSubgroup(), w.skA)
@@ -481,7 +490,7 @@ func catalogue() []*entry {
 				return rlwe.NewKeyGenerator(w.pA).GenGaloisKeyNew(5, w.skA, evkParams(1, 0, 0, false))
 			}),
 		}},
-		{name: "structs.Map[uint64,rlwe.GaloisKey]", vals: []value{
+		{name: "structs.Map[uint64,rlwe.GaloisKey]", refill: true, vals: []value{
 			V("empty", func(w *world, g *gen) any { m := structs.Map[uint64, rlwe.GaloisKey]{}; return &m }),
 			V("gal5+gal25", func(w *world, g *gen) any {
 				kg := rlwe.NewKeyGenerator(w.pA)
@@ -494,7 +503,7 @@ func catalogue() []*entry {
 				return &m
 			}),
 		}},
-		{name: "rlwe.MemEvaluationKeySet", vals: []value{
+		{name: "rlwe.MemEvaluationKeySet", refill: true, vals: []value{
 			V("zero-value", func(w *world, g *gen) any { return &rlwe.MemEvaluationKeySet{} }),
 			V("rlk+gal5+gal25", func(w *world, g *gen) any {
 				kg := rlwe.NewKeyGenerator(w.pA)
@@ -549,7 +558,7 @@ func catalogue() []*entry {
 			}),
 			V("zero-value", func(w *world, g *gen) any { return &polynomial.PowerBasis{} }),
 		}},
-		{name: "bootstrapping.EvaluationKeys", vals: []value{
+		{name: "bootstrapping.EvaluationKeys", refill: true, vals: []value{
 			V("zero-value", func(w *world, g *gen) any { return &bootstrapping.EvaluationKeys{} }),
 			V("all-set", func(w *world, g *gen) any {
 				kg := rlwe.NewKeyGenerator(w.pA)
